@@ -1,7 +1,7 @@
 """C15 -- the run-time type check accepts a value exactly when it conforms structurally."""
 import shutil
 
-from .. import common, pipeline, tla
+from .. import canary, common, pipeline, tla
 from .. import d_pytypes as D
 
 CFG = """SPECIFICATION Spec
@@ -44,6 +44,7 @@ def main(tier):
             events += o
         rep.mark("drive")
         res = tla.judge("J_PyTypes", events, chunk=30000, jobs=common.jobs())
+        pipeline.canaries(rep, "J_PyTypes", events[::max(1, len(events) // 40)], canary.pytypes, env=None, want=16)
         rep.mark("judge")
         for gi, clause, _ in res["bad"]:
             e = events[gi]
